@@ -9,6 +9,18 @@ T = {
     text="Generated well-typed formulas of every sort (sharing, finite-sort quantifiers, rule-trigger constants) are simplified in a fresh Environment; the decoded result must have the reference type, mention no new symbol and evaluate, under all (<=128) or 8 sampled interpretations, to the value the independent reference evaluator gives the original. Every BV operator over constant/symbol operands is enumerated exhaustively at widths 1..4 (1..6 thorough).",
     note="Trusted: vf/refsem.py (my transcription of the SMT-LIB 2.6 theories), vf/pys.py decode via public accessors. Quantifiers are evaluated only over finite sorts; strict evaluation discards interpretations that evaluate an Int/Real division by zero.",
     technique="property-based differential testing against a reference evaluator (Hypothesis-seeded generators) + exhaustive enumeration of the BV constant-folding space"),
+ "C02": dict(level="exploration", design="4/C02",
+    text="Generated QF, UF-free formulas of every result sort are evaluated through EagerModel.get_value / get_py_value / [] / satisfies under total and partial assignments of constants (incl. nested array values) with and without completion, and compared with the reference evaluator; without completion the result must raise or hold for every completion. Every BV operator is evaluated at every operand value (operands as symbols) for widths 1..4 (1..5 thorough).",
+    note="Trusted: vf/refsem.py. Completion of String/Array symbols is undocumented: an exception there is accepted. Division-by-zero assignments are discarded.",
+    technique="property-based differential testing of model evaluation against a reference evaluator + exhaustive BV operand enumeration"),
+ "C03": dict(level="exploration", design="4/C03",
+    text="(a) All ~125k applications of every public FormulaManager constructor to every tuple of basis sorts (13 sorts incl. two function sorts) and parameter values are enumerated: a returned formula must be well-typed by the reference rules with the reference type, an ill-typed application must raise. (b) Every node of every formula returned by 15 transformations/parsers on generated inputs must be well-typed and type-preserving.",
+    note="Trusted: reference typing rules (vf/refsem.py reftype + signature table in vf/checks/c03.py). Any exception is a rejection; over-rejection is not judged; function symbols as arguments and single-argument n-ary pass-through are counted as boundary classes, not violations.",
+    technique="exhaustive enumeration of constructor x sort tuples against reference typing rules + property-based closure check of transformation outputs"),
+ "C06": dict(level="exploration", design="4/C06",
+    text="A table of ~3000 derived-constructor / infix / FNode-method forms (all arities, widths 1..4, Python literals on either side, repeated argument objects) is built over symbols; the decoded formula is evaluated by the reference evaluator at every argument tuple (Bool/BV exhaustively, Int/Real at drawn tuples incl. huge and rational values) and compared with a direct Python definition of the named function; out-of-range signed constants must raise.",
+    note="Trusted: vf/refsem.py and the Python definitions in vf/checks/c06.py; x[i:j] is read as bits i..j inclusive (as FNode.__getitem__ documents by passing start/end).",
+    technique="table-driven exhaustive / sampled evaluation of derived forms against direct Python definitions"),
 }
 
 checks, na = [], []
